@@ -1651,7 +1651,6 @@ namespace bloch::compiler {
                                  "'@shots(N)' can only decorate the main() function.");
             }
         }
-        declare(node.name, node.isFinal, tinfo);
         if (auto arr = dynamic_cast<ArrayType*>(node.varType.get())) {
             bool hasExplicitSize = arr->size >= 0 || arr->sizeExpression != nullptr;
             if (arr->sizeExpression) {
@@ -1686,6 +1685,9 @@ namespace bloch::compiler {
         if (node.initializer)
             validateTypedInitializer(node.name, node.varType.get(), node.initializer.get(),
                                      node.line, node.column);
+        // The name comes into scope after its own initialiser: 'int x = x + 1;' refers to an
+        // outer x or to nothing.
+        declare(node.name, node.isFinal, tinfo);
         if (node.isFinal) {
             if (auto prim = dynamic_cast<PrimitiveType*>(node.varType.get())) {
                 if (prim->name == "int" && node.initializer) {
